@@ -41,13 +41,19 @@ type Flow struct {
 	Strict bool   `json:"strict,omitempty"` // hdr: the group must be on every page fragment of the table
 }
 
+// Item is a list item with the expected text of its marker (white space removed).
+type Item struct {
+	ID     string `json:"id"`
+	Marker string `json:"marker"`
+}
+
 // Input is the self-contained case.
 type Input struct {
 	HTML   string   `json:"html"`
 	Engine string   `json:"engine,omitempty"` // "pango" (default) | "gotext"
 	Flows  []Flow   `json:"flows"`
 	Hidden []string `json:"hidden,omitempty"` // ids of visibility:hidden elements (laid out, not drawn)
-	Items  []string `json:"items,omitempty"`  // ids of list items that must get exactly one marker
+	Items  []Item   `json:"items,omitempty"`  // list items and the marker text each must get exactly once
 	Feat   []string `json:"feat,omitempty"`   // features the generator used (evidence counters)
 	Mode   string   `json:"mode,omitempty"`   // generator family
 }
@@ -311,8 +317,9 @@ func Check(raw json.RawMessage) fw.Result {
 		}
 	}
 
-	// ---------- list markers: one per list item ----------
-	for _, li := range in.Items {
+	// ---------- list markers: the marker text exactly once per list item ----------
+	for _, it := range in.Items {
+		li := it.ID
 		ps := od.elemPages[li]
 		ms := markers[li]
 		delete(markers, li)
@@ -326,20 +333,22 @@ func Check(raw json.RawMessage) fw.Result {
 		if len(ps) > 1 {
 			res.Count("list_items_split", 1)
 		}
-		if len(ms) != 1 {
-			var where []string
-			for _, m := range ms {
-				where = append(where, fmt.Sprintf("%q on page %d", m.text, m.page+1))
-			}
-			res.Fail("marker-count", fmt.Sprintf("list item %s (boxes on pages %v) has %d markers, expected exactly 1: %s", li, plus1(ps), len(ms), strings.Join(where, ", ")))
+		got := ""
+		var where []string
+		for _, m := range ms {
+			got += stripWS(m.text)
+			where = append(where, fmt.Sprintf("%q on page %d", m.text, m.page+1))
+		}
+		if got != it.Marker {
+			res.Fail("marker-"+classify(it.Marker, got), fmt.Sprintf("list item %s (boxes on pages %v): marker text %q expected exactly once, laid out %q: %s", li, plus1(ps), it.Marker, got, strings.Join(where, ", ")))
 			continue
 		}
-		if ms[0].page != ps[0] {
+		if len(ms) > 0 && ms[0].page != ps[0] {
 			res.Fail("marker-page", fmt.Sprintf("marker %q of list item %s is on page %d, the item starts on page %d", ms[0].text, li, ms[0].page+1, ps[0]+1))
 		}
 	}
 	for li, ms := range markers {
-		res.Fail("marker-extra", fmt.Sprintf("%d marker boxes (first %q, page %d) for element %q which is no generated list item", len(ms), ms[0].text, ms[0].page+1, li))
+		res.Fail("marker-extra", fmt.Sprintf("%d marker boxes (first %q, page %d) for element %q which is no generated list item with a marker", len(ms), ms[0].text, ms[0].page+1, li))
 	}
 
 	// ---------- (iii) drawing ----------
@@ -399,7 +408,12 @@ func Check(raw json.RawMessage) fw.Result {
 		}
 		draws[found].used = true
 		res.Count("draws_matched", 1)
-		if want := len([]rune(t.text)); draws[found].glyphs != want {
+		// every non-blank character of the run must have reached the backend as a glyph
+		nonBlank := len([]rune(key))
+		if draws[found].glyphs < nonBlank {
+			res.Fail("draw-glyphs-missing", fmt.Sprintf("page %d: DrawText %q carries %d glyphs for %d non-blank characters", t.page+1, draws[found].text, draws[found].glyphs, nonBlank))
+		}
+		if draws[found].glyphs != len([]rune(draws[found].text)) {
 			res.Count("glyph_count_differs", 1)
 		}
 	}
